@@ -58,21 +58,29 @@ AvgPrice(P) ==
 (* realised_pnl, three branches exactly as written in the code:
      long :  (avg_sold - avg_bought) * sq - (sq / bq) * bc - sc      (0 if nothing sold)
      short:  (avg_sold - avg_bought) * bq - (bq / sq) * sc - bc      (0 if nothing bought)
-     flat :  total_sold - total_bought - commission                                     *)
-Realised(P) ==
+     flat :  total_sold - total_bought - commission
+   Both P&L figures of one position are kept over the common denominator Den(P) (the gross
+   quantity on the open side), so that their sum needs no cross-multiplication.            *)
+Den(P) == IF Net(P) > 0 THEN P.bq ELSE IF Net(P) < 0 THEN P.sq ELSE 1
+
+RealisedNum(P) ==
   IF Net(P) > 0 THEN
-       IF P.sq = 0 THEN RInt(0)
-       ELSE R(P.ts * P.bq - P.tb * P.sq - P.bc * P.sq - P.sc * P.bq, P.bq)
+       IF P.sq = 0 THEN 0
+       ELSE P.ts * P.bq - P.tb * P.sq - P.bc * P.sq - P.sc * P.bq
   ELSE IF Net(P) < 0 THEN
-       IF P.bq = 0 THEN RInt(0)
-       ELSE R(P.ts * P.bq - P.tb * P.sq - P.sc * P.bq - P.bc * P.sq, P.sq)
-  ELSE RInt(P.ts - P.tb - P.bc - P.sc)
+       IF P.bq = 0 THEN 0
+       ELSE P.ts * P.bq - P.tb * P.sq - P.sc * P.bq - P.bc * P.sq
+  ELSE P.ts - P.tb - P.bc - P.sc
 
-\* unrealised_pnl = (current_price - avg_price) * net_quantity
-Unrealised(P) ==
-  LET a == AvgPrice(P) IN R((P.px * a[2] - a[1]) * Net(P), a[2])
+\* unrealised_pnl = (current_price - avg_price) * net_quantity ; avg_price = AvgPrice(P)
+UnrealisedNum(P) ==
+  IF Net(P) > 0 THEN (P.px * P.bq - (P.tb + P.bc)) * Net(P)
+  ELSE IF Net(P) < 0 THEN (P.px * P.sq - (P.ts - P.sc)) * Net(P)
+  ELSE 0
 
-Total(P) == RAdd(Realised(P), Unrealised(P))
+Realised(P)   == << RealisedNum(P), Den(P) >>
+Unrealised(P) == << UnrealisedNum(P), Den(P) >>
+Total(P)      == << RealisedNum(P) + UnrealisedNum(P), Den(P) >>
 
 (***************************************************************************)
 (* PositionHandler.transact_position on the map  asset -> position of one  *)
